@@ -121,12 +121,17 @@ def writer_rt(case, ctx):
         units['ns'] = vals[:500].astype('M8[ns]')
     if abs(secs) < 10 ** 11:
         units['D'] = vals[:500].astype('M8[D]')
+    units['us-big-endian'] = vals[:500].astype('>M8[us]')
     for u_, arr in units.items():
         props['unit_' + u_] = arr[5]
     buf = io.BytesIO()
     with TdmsWriter(buf) as w:
+        keep_ = {u_: (arr.tobytes(), arr.dtype.str) for u_, arr in units.items()}
         w.write_segment([RootObject(props), ChannelObject('g', 'ts', vals), ChannelObject('g', 'tl', list(vals[:50].astype(object)))]
-                        + [ChannelObject('u', u_, arr) for u_, arr in units.items()])
+                        + [ChannelObject('u', u_, arr) for u_, arr in units.items()] + [ChannelObject('u2', u_, arr) for u_, arr in units.items()])
+        for u_, arr in units.items():
+            if (arr.tobytes(), arr.dtype.str) != keep_[u_]:
+                ctx.violation('writer-roundtrip/writer-modified-the-callers-array/%s' % u_, {})
     ctx.evaluation()
     for mode in ('eager', 'lazy'):
         tf = (TdmsFile.read if mode == 'eager' else TdmsFile.open)(io.BytesIO(buf.getvalue()))
@@ -138,8 +143,8 @@ def writer_rt(case, ctx):
                                                             'read': str(got[bad[0]]) if len(bad) else None, 'dtype': str(got.dtype)})
         if (tf['g']['tl'][:] != vals[:50]).any():
             ctx.violation('writer-roundtrip/datetime-list', {'mode': mode})
-        for u_, arr in units.items():
-            gotu = tf['u'][u_][:]
+        for u_, arr in [(k_, v_) for k_, v_ in units.items()] + [('2:' + k_, v_) for k_, v_ in units.items()]:
+            gotu = tf['u2' if u_.startswith('2:') else 'u'][u_.split(':')[-1]][:]
             ctx.count('writer_roundtrip_other_units', len(arr))
             if gotu.dtype != np.dtype('M8[us]') or (gotu != arr.astype('M8[us]')).any():
                 ctx.violation('writer-roundtrip/datetime64-unit/%s' % u_, {'mode': mode, 'written': str(arr[0]), 'read': str(gotu[0])})
@@ -247,18 +252,33 @@ def raw_rt(case, ctx):
     for kind_, arr_ in built.items():
         try:
             out = io.BytesIO()
+            before_ = arr_.tobytes()
             with TdmsWriter(out) as w:
-                w.write_segment([ChannelObject('g', 'ts', arr_)])
-            back = TdmsFile.read(io.BytesIO(out.getvalue()), raw_timestamps=True)['g']['ts'][:]
+                # the same array object is the data of two channels, and of a further segment
+                w.write_segment([ChannelObject('g', 'ts', arr_), ChannelObject('g', 'ts2', arr_)])
+                w.write_segment([ChannelObject('g', 'ts3', arr_)])
+            tfb = TdmsFile.read(io.BytesIO(out.getvalue()), raw_timestamps=True)
             ctx.count('caller_built_timestamp_arrays_written')
-            if C.image(back) != ('ts', wl0):
-                ctx.violation('raw-pairs/write-of-caller-built-array/%s' % kind_, {'got': C.short(C.image(back)), 'want': wl0[:4]})
+            for cn_ in ('ts', 'ts2', 'ts3'):
+                back = tfb['g'][cn_][:]
+                if C.image(back) != ('ts', wl0):
+                    ctx.violation('raw-pairs/write-of-caller-built-array/%s%s' % (kind_, '' if cn_ == 'ts' else '/second-use-of-the-same-array'),
+                                  {'channel': cn_, 'got': C.short(C.image(back)), 'want': wl0[:4]})
+                    break
+            if arr_.tobytes() != before_:
+                ctx.violation('raw-pairs/writer-modified-the-callers-array/%s' % kind_, {})
         except Exception as ex:
             ctx.violation('raw-pairs/write-of-caller-built-array-raises/%s/%s' % (kind_, util.exc_key(ex)), {'exc': util.exc_detail(ex)})
-    # write raw TdmsTimestamp objects
+    # write raw TdmsTimestamp objects; every other case the objects are created first and set afterwards (a corrected clock)
+    def make_ts(s_, f_):
+        if case['s'] % 2:
+            t_ = TdmsTimestamp(0, 0)
+            t_.seconds, t_.second_fractions = s_, f_
+            return t_
+        return TdmsTimestamp(s_, f_)
     buf = io.BytesIO()
     with TdmsWriter(buf) as w:
-        w.write_segment([RootObject({'stamp': TdmsTimestamp(*prop)}), ChannelObject('g', 'ts', [TdmsTimestamp(s, f) for s, f in pairs])])
+        w.write_segment([RootObject({'stamp': make_ts(*prop)}), ChannelObject('g', 'ts', [make_ts(s, f) for s, f in pairs])])
     tf = TdmsFile.read(io.BytesIO(buf.getvalue()), raw_timestamps=True)
     if C.image(tf['g']['ts'][:]) != ('ts', [(int(s), int(f)) for s, f in pairs]):
         ctx.violation('raw-pairs/write', {'want': pairs[:4], 'got': C.short(C.image(tf['g']['ts'][:]))})
